@@ -16,12 +16,15 @@ pub type TypeBindings<'ast> = Vec<(LocIdent, UnifType<'ast>)>;
 /// For example, in the pattern `{foo={bar='Baz arg}}`:
 ///
 /// - The path of the full pattern within itself is the empty path.
-/// - The path of the `arg` pattern is `[Field("foo"), Field("bar"), Variant]`.
+/// - The path of the `arg` pattern is `[Field("foo"), Field("bar"), Variant("Baz")]`.
 #[derive(Debug, Clone, PartialEq, Eq, Copy, Hash)]
 pub enum PatternPathElem {
     Field(Ident),
     Array(usize),
-    Variant,
+    /// The argument of an enum variant. The tag is part of the path: the arguments of two
+    /// different variants are at different positions, and a wildcard pattern in one of them
+    /// says nothing about the cases handled for the other.
+    Variant(Ident),
 }
 
 pub type PatternPath = Vec<PatternPathElem>;
@@ -511,7 +514,7 @@ impl<'ast> PatternTypes<'ast> for EnumPattern<'ast> {
             .pattern
             .as_ref()
             .map(|pat| {
-                path.push(PatternPathElem::Variant);
+                path.push(PatternPathElem::Variant(self.tag.ident()));
                 pat.pattern_types_inj(pt_state, path, state, ctxt, mode)
             })
             .transpose()?
